@@ -239,6 +239,10 @@ func ruleC16(c *Ctx, r *Result) {
 	}
 	sortFuncs(c, fns)
 	isMut := func(name string) bool {
+		// in-place rewrites of the dense structures at the addresses recorded at load
+		if name == "structures.WritableFractalHeap.WriteAt" || name == "structures.WritableBTreeV2.WriteAt" {
+			return true
+		}
 		f := c.FnOpt(name)
 		return f != nil && shortPkg(fnPkgPath(f)) == "hdf5" && c.mutates(f, 0)
 	}
@@ -335,6 +339,11 @@ func (c *Ctx) ioOnlyFailing(fn *ssa.Function, depth int) bool {
 			if c.ioPrimitiveCall(s.Call) {
 				continue
 			}
+			// the in-place write-back of a loaded dense structure fails through I/O (or for a structure that was never
+			// loaded, which the callers exclude by loading it first): its error is not the rejection of a request
+			if n := c.calleeName(s.Call); n == "structures.WritableFractalHeap.WriteAt" || n == "structures.WritableBTreeV2.WriteAt" {
+				continue
+			}
 			f := s.Call.Call.StaticCallee()
 			if f == nil || !inModule(fnPkgPath(f)) || !c.ioOnlyFailing(f, depth+1) {
 				ok = false
@@ -378,6 +387,9 @@ func (c *Ctx) checkAtomicFailure(r *Result, rule string, fn *ssa.Function, isMut
 			}
 			if c.ioPrimitiveCall(s.Call) {
 				continue
+			}
+			if n := c.calleeName(s.Call); n == "structures.WritableFractalHeap.WriteAt" || n == "structures.WritableBTreeV2.WriteAt" {
+				continue // write-back of a loaded structure: fails through I/O only (see ioOnlyFailing)
 			}
 			if f := s.Call.Call.StaticCallee(); f != nil && f.Blocks != nil && (len(errorReturns(f)) == 0 || c.ioOnlyFailing(f, 0)) {
 				continue
@@ -862,5 +874,21 @@ func init() {
 		if n == 0 {
 			r.Undec("C16.8", "hdf5#element-encoders", "", "no strided PutUintN in a function with an element-size parameter")
 		}
+	})
+}
+
+func init() {
+	reg := registry["C16"]
+	reg.Meta.Rules["C16.9"] = "a rejected Resize changes nothing: no failure exit of DatasetWriter.Resize is reachable after the handle's shape, size, coordinator or the cached header's messages were changed (same analysis as C13.3; C16.1 leaves Resize to it)"
+	except("C16", "C16.9", "hdf5.DatasetWriter.Resize#error-return(core.WriteObjectHeader)#after-mutation",
+		"the only change before this exit is the replacement of the cached header's dataspace message by an encoding of the same rank, i.e. of the same length, so WriteObjectHeader cannot refuse it for size; it fails only when the file write itself fails, which is an I/O fault, not a rejected request")
+	reg.Rules = append(reg.Rules, func(c *Ctx, r *Result) {
+		rz := c.FnOpt("hdf5.DatasetWriter.Resize")
+		if rz == nil {
+			r.Undec("C16.9", "hdf5.DatasetWriter.Resize#atomic-failure", "", "Resize not found")
+			return
+		}
+		isWOH := func(n string) bool { return n == "core.WriteObjectHeader" }
+		c.checkNoErrorAfterStore(r, "C16.9", rz, isWOH, false, "hdf5.DatasetWriter.dims", "hdf5.DatasetWriter.dataSize", "hdf5.DatasetWriter.chunkCoordinator", "core.HeaderMessage.Data")
 	})
 }
